@@ -378,7 +378,9 @@ fn finding_json(f: &Finding) -> serde_json::Value {
 }
 
 fn random_batch(rng: &mut Rng, known: &[KeyCode]) -> Vec<Event> {
-  let n = match rng.below(10) { 0 => 0, 1 => 1, 2 => 40, _ => rng.below(41) };
+  // mostly short; one in ten is long (around powers of two and a few hundred events: buffer-size and
+  // framing boundaries), the 64 KiB pipe bounds the stream length
+  let n = match rng.below(20) { 0 => 0, 1 => 1, 2 => 40, 3 => *rng.pick(&[63usize, 64, 65, 127, 128, 129, 255, 256, 257, 511, 512, 513]), 4 => rng.range(41, 600), _ => rng.below(41) };
   // a small pool makes repeated keys (press … release of the same key) common
   let pool: Vec<KeyCode> = (0..rng.range(1, 12)).map(|_| *rng.pick(known)).collect();
   (0..n).map(|_| {
